@@ -13,9 +13,19 @@ THEOREMS = ["C07_mirror_x_partial", "C07_mirror_y_partial", "C07_transpose_parti
 # theorems that survive rounding (Properties/RoundedProps.v): the similarity group is exact in rounded arithmetic
 THEOREMS_ROUNDED = ['C07_velocity_scaling_in_rounded_arithmetic', 'C07_length_scaling_in_rounded_arithmetic', 'Rounded_similarity',
                     'Rounded_float_instance_same_formulas', 'Rounded_binary_rounding_is_homogeneous']
+# Properties/C07Recentre.v: array-level mirror in dispersion mode WITH the re-centring shift (Proofs/C07MirrorRC.v)
+THEOREMS_RC = ["C07_mirror_recentred_geometry",
+               "C07_mirror_x_recentred", "C07_mirror_x_recentred_defect", "C07_mirror_x_recentred_odd", "C07_mirror_x_recentred_even",
+               "C07_mirror_y_recentred", "C07_mirror_y_recentred_defect", "C07_mirror_y_recentred_odd", "C07_mirror_y_recentred_even"]
+# non-vacuity witnesses over the complex instance (stdlib real axioms)
+EXAMPLES_RC = ["C07_mirror_recentred_hypotheses_satisfiable", "C07_mirror_recentred_origin_excluded"]
+# Properties/C07MirrorSingle.v: the same mirror statements for single storage, as bounds (Proofs/C07MirrorSingle.v)
+THEOREMS_SINGLE = ["C07_mirror_single_bound", "C07_mirror_single_bound_odd", "C07_mirror_single_bound_default",
+                   "C07_mirror_y_single_bound", "C07_mirror_y_single_bound_odd", "C07_mirror_y_single_bound_default"]
 ASSUMPTIONS = [
     "C07_velocity_scaling_in_rounded_arithmetic / C07_length_scaling_in_rounded_arithmetic: whole-result equations in rounded arithmetic (RndOps) for a scale factor s with rnd (s x) = s rnd x (arithmetic and storage rounding), s > 0 for the length scaling (the principal square root and the order tests see the sign); the background is divided by s in the velocity scaling and the halo, when given, is a length",
-    "array-level mirror: proved for the fields synthesised without the unpaired (Nyquist) column/row of the retained frequency set, as an exact defect identity for the returned arrays, and for the returned arrays themselves when the clamped mode count is odd; dispersion mode under double storage and the default measurement point (no re-centring shift); footprint mode at both precisions",
+    "array-level mirror: proved for the fields synthesised without the unpaired (Nyquist) column/row of the retained frequency set, as an exact defect identity for the returned arrays, and for the returned arrays themselves when the clamped mode count is odd; footprint mode at both precisions; dispersion mode under double storage, at the default measurement point (Properties/C07.v) and with the re-centring shift (Properties/C07Recentre.v: reflected measurement point xm' = xmx - xm / ym' = ymx - ym, any real point, any halo; hypothesis: the request and the reflected request both satisfy the code's guard xm^2 + ym^2 > 0)",
+    "dispersion mode with single storage: not an equality (rounding does not commute with the unit-modulus factor of the mirrored source spectrum) but a bound under the storage-rounding model |rnd x - x| <= eps |x| (Properties/C07MirrorSingle.v): mirror defect = Nyquist defect of the double-storage runs up to eps (Smodes m + Smodes a); 2 eps Smodes a for an odd mode count; rounding of the arithmetic itself is not modelled",
     "length scaling of the top condition uses sqrt(r/s^2) = sqrt(r)/s (principal root, real s > 0) as a hypothesis",
 ]
 
@@ -29,6 +39,9 @@ def gen(ctx):
 def check(ctx):
     core.check_properties_file(ctx, "Properties/C07.v", THEOREMS, {"C07_sqrt_scale_in_C": core.AX_REALS})
     core.check_properties_file(ctx, "Properties/RoundedProps.v", THEOREMS_ROUNDED, core.AX_REALS, coqchk=False)
+    core.check_properties_file(ctx, "Properties/C07Recentre.v", THEOREMS_RC + EXAMPLES_RC,
+                               dict({n: core.AX_NONE for n in THEOREMS_RC}, **{n: core.AX_REALS for n in EXAMPLES_RC}))
+    core.check_properties_file(ctx, "Properties/C07MirrorSingle.v", THEOREMS_SINGLE, core.AX_REALS)
     solverslices.run(ctx)
     cases = gen(ctx)
     roundedobs.observe(ctx, "C07", cases, ["velocity", "length"], ROUNDED_THEOREM_OF, limit=(20 if ctx.thorough else 6))
@@ -51,7 +64,82 @@ def strip_nyquist(F, nlx, nly):
     return np.fft.ifft2(H, axes=(-2, -1)).real
 
 
-def probe(S, case, rng):
+def recentred_points(rng, nx, ny, Lx, Ly):
+    """measurement points that take the re-centring branch (xm^2 + ym^2 > 0) and whose reflections
+    (Lx - xm, ym) and (xm, Ly - ym) take it too: off-grid, on-grid, on one axis (xm = 0 with ym != 0
+    reflects to xm' = Lx), near the far edge"""
+    dx, dy = Lx / nx, Ly / ny
+    return [(0.37 * Lx, 0.61 * Ly),
+            (dx * rng.randrange(1, nx), dy * rng.randrange(ny)),
+            (0.0, dy * rng.randrange(1, ny)),
+            (0.3 * Lx, 0.0),
+            (Lx - dx, Ly - dy),
+            (rng.uniform(0.05, 0.95) * Lx, rng.uniform(0.05, 0.95) * Ly)]
+
+
+def probe_recentred(S, base, rng, fields, rel, tol, force=None):
+    """C07_mirror_x/_y_recentred on the real code: dispersion mode, double storage, measurement point
+    other than the origin.  The reflected measurement point is the reflection about the DOMAIN CENTRE,
+    xm' = xmx - xm (ym' = ymx - ym), not about the cell grid.  halo = 0: the returned grid is the
+    periodic grid, so the unpaired Nyquist column/row can be removed by an FFT of the outputs (with an
+    odd clamped mode count nothing is removed and the returned arrays themselves are compared);
+    a second request WITH a halo is compared directly along every axis whose clamped mode count is odd."""
+    out = []
+    ny, nx = base["q0"].shape
+    Lx, Ly = base["domain"]
+    u, v, Kx, Ky, Kz = base["profiles"]
+    nlx, nly = base["modes"]
+    const = all(float(np.ptp(p)) == 0.0 for p in base["profiles"])
+    rc = dict(base, footprint=False, precision="double", halo=0.0,
+              analytic=bool(const and rng.random() < 0.5),
+              meas_pt=rng.choice(recentred_points(rng, nx, ny, Lx, Ly)))
+    dx, dy = Lx / nx, Ly / ny
+    halo2 = rng.choice([dx, 1.3 * dx, 2 * dy])
+    if force:  # replay of a recorded failing request
+        rc["meas_pt"], rc["analytic"], halo2 = tuple(force["meas_pt"]), bool(force["analytic"]), force.get("halo2", halo2)
+    xm, ym = rc["meas_pt"]
+    forced = dict(meas_pt=list(rc["meas_pt"]), analytic=rc["analytic"], halo2=halo2)
+    # (tag, request, filter applied to both sides, axes whose mirror is compared, tolerance)
+    variants = [("", rc, lambda F: strip_nyquist(F, nlx, nly), "xy", tol),
+                # single storage (C07_mirror_single_bound / _y_): a bound, not an equality — 2 eps * sum |amplitudes|;
+                # checked with the storage tolerance the C02 oracle uses for single precision
+                ("-single", dict(rc, precision="single"), lambda F: strip_nyquist(F, nlx, nly), "xy", 1e-4)]
+    odd_axes = ("x" if nx % 2 == 1 else "") + ("y" if ny % 2 == 1 else "")
+    if odd_axes:
+        # odd padded size along an axis and a mode request above the padded sizes: the clamp gives an odd
+        # count on that axis, nothing is unpaired there (C07_mirror_*_recentred_odd) — any halo
+        variants.append(("-halo-odd", dict(rc, halo=halo2, modes=(64, 64)), lambda F: F, odd_axes, tol))
+    for tag, r, flt, axes, vtol in variants:
+        c0, f0 = fields(r)
+        # single storage rounds the stored concentration relative to |C| ~ |bg|: compare C itself there
+        bg = r["bg"] if r["precision"] == "double" else 0.0
+        # deviations are measured against the magnitude of the UNFILTERED fields: after removing the Nyquist
+        # components of a (2, 2)-mode request only the mean mode is left, which is rounding noise for a zero-mean source
+        sf, scn = max(float(np.abs(f0).max()), 1e-300), max(float(np.abs(c0 - bg).max()), 1e-300)
+
+        def rel(a, b, scale):
+            return float(np.abs(a - b).max()) / scale
+        if "x" in axes:
+            mx = dict(r, q0=r["q0"][:, ::-1].copy(), profiles=(-u, v, Kx, Ky, Kz), meas_pt=(Lx - xm, ym))
+            c1, f1 = fields(mx)
+            d = max(rel(flt(f1), flt(f0[:, :, ::-1]), sf), rel(flt(c1 - bg), flt(c0[:, :, ::-1] - bg), scn))
+            if d > vtol:
+                out.append(("mirror-x-recentred" + tag,
+                            "re-centred dispersion request (meas_pt %r, halo %r, modes %r; mirrored request at (xmx - xm, ym) = %r): mirrored problem differs from the mirrored fields by %.3g beyond the Nyquist components"
+                            % (r["meas_pt"], r["halo"], r["modes"], mx["meas_pt"], d), forced))
+        if "y" in axes:
+            my = dict(r, q0=r["q0"][::-1, :].copy(), profiles=(u, -v, Kx, Ky, Kz), meas_pt=(xm, Ly - ym))
+            c2, f2 = fields(my)
+            d = max(rel(flt(f2), flt(f0[:, ::-1, :]), sf), rel(flt(c2 - bg), flt(c0[:, ::-1, :] - bg), scn))
+            if d > vtol:
+                out.append(("mirror-y-recentred" + tag,
+                            "re-centred dispersion request (meas_pt %r, halo %r, modes %r; mirrored request at (xm, ymx - ym) = %r): mirrored problem differs by %.3g beyond the Nyquist components"
+                            % (r["meas_pt"], r["halo"], r["modes"], my["meas_pt"], d), forced))
+    return out
+
+
+def probe(S, case, rng, force=None):
+    """list of (signature, detail[, forced re-centred request]) of the symmetry statements that fail on this case"""
     out = []
     ny, nx = case["q0"].shape
     lv = sc.levels_list(case)
@@ -68,29 +156,58 @@ def probe(S, case, rng):
     def fields(c):
         _, cc, ff = sc.call(S, c)
         n_y, n_x = c["q0"].shape
-        return np.asarray(cc, float).reshape(len(lv), n_y, n_x), np.asarray(ff, float).reshape(len(lv), n_y, n_x)
+        return np.asarray(cc, float).reshape(len(lv), n_y, n_x), np.asarray(ff, float).reshape(len(lv), n_y, n_x)  # float64 copies (also of float32 results)
 
     def rel(a, b):
         return float(np.abs(a - b).max() / max(np.abs(b).max(), 1e-300))
 
     c0, f0 = fields(base)
+    # Nyquist-filtered comparisons are measured against the magnitude of the UNFILTERED fields (with a (2, 2)-mode
+    # request only the mean mode survives the filter, and that is rounding noise for a zero-mean source)
+    sf, scn = max(float(np.abs(f0).max()), 1e-300), max(float(np.abs(c0 - base["bg"]).max()), 1e-300)
+
+    def rels(a, b, scale):
+        return float(np.abs(a - b).max()) / scale
+
     # mirror in x: flip the source, negate u; tower mirrored
     mx = dict(base, q0=base["q0"][:, ::-1].copy(), profiles=(-u, v, Kx, Ky, Kz))
     if base["footprint"]:
         mx["meas_pt"] = ((nx - 1) * dx - base["meas_pt"][0], base["meas_pt"][1])
     c1, f1 = fields(mx)
-    d = max(rel(strip_nyquist(f1, nlx, nly), strip_nyquist(f0[:, :, ::-1], nlx, nly)),
-            rel(strip_nyquist(c1 - base["bg"], nlx, nly), strip_nyquist(c0[:, :, ::-1] - base["bg"], nlx, nly)))
+    d = max(rels(strip_nyquist(f1, nlx, nly), strip_nyquist(f0[:, :, ::-1], nlx, nly), sf),
+            rels(strip_nyquist(c1 - base["bg"], nlx, nly), strip_nyquist(c0[:, :, ::-1] - base["bg"], nlx, nly), scn))
     if d > tol:
         out.append(("mirror-x", "mirrored problem differs from the mirrored fields by %.3g beyond the Nyquist components" % d))
     my = dict(base, q0=base["q0"][::-1, :].copy(), profiles=(u, -v, Kx, Ky, Kz))
     if base["footprint"]:
         my["meas_pt"] = (base["meas_pt"][0], (ny - 1) * dy - base["meas_pt"][1])
     c2, f2 = fields(my)
-    d = max(rel(strip_nyquist(f2, nlx, nly), strip_nyquist(f0[:, ::-1, :], nlx, nly)),
-            rel(strip_nyquist(c2 - base["bg"], nlx, nly), strip_nyquist(c0[:, ::-1, :] - base["bg"], nlx, nly)))
+    d = max(rels(strip_nyquist(f2, nlx, nly), strip_nyquist(f0[:, ::-1, :], nlx, nly), sf),
+            rels(strip_nyquist(c2 - base["bg"], nlx, nly), strip_nyquist(c0[:, ::-1, :] - base["bg"], nlx, nly), scn))
     if d > tol:
         out.append(("mirror-y", "mirrored problem differs by %.3g beyond the Nyquist components" % d))
+    # the same with a halo that is NOT a whole number of cells, along every axis with an odd padded size: a mode request
+    # above the padded sizes is clamped to an odd count there, no column/row is unpaired and the returned arrays
+    # themselves are mirrored (C07_mirror_x_odd / _y_odd hold for every halo)
+    odd_axes = ("x" if nx % 2 == 1 else "") + ("y" if ny % 2 == 1 else "")
+    if odd_axes:
+        hb = dict(base, halo=1.3 * max(dx, dy), modes=(64, 64))
+        ch, fh = fields(hb)
+        sfh, sch = max(float(np.abs(fh).max()), 1e-300), max(float(np.abs(ch - hb["bg"]).max()), 1e-300)
+        for ax in odd_axes:
+            flip = (lambda F: F[:, :, ::-1]) if ax == "x" else (lambda F: F[:, ::-1, :])
+            hm = dict(hb, q0=(hb["q0"][:, ::-1] if ax == "x" else hb["q0"][::-1, :]).copy(),
+                      profiles=(-u, v, Kx, Ky, Kz) if ax == "x" else (u, -v, Kx, Ky, Kz))
+            if hb["footprint"]:
+                xm0, ym0 = hb["meas_pt"]
+                hm["meas_pt"] = ((nx - 1) * dx - xm0, ym0) if ax == "x" else (xm0, (ny - 1) * dy - ym0)
+            c6, f6 = fields(hm)
+            d = max(rels(f6, flip(fh), sfh), rels(c6 - hb["bg"], flip(ch) - hb["bg"], sch))
+            if d > tol:
+                out.append(("mirror-%s-halo-odd" % ax,
+                            "halo %r (not a whole number of cells), odd clamped mode count: mirrored problem (meas_pt %r -> %r) differs from the mirrored fields by %.3g"
+                            % (hb["halo"], hb["meas_pt"], hm["meas_pt"], d)))
+    out += probe_recentred(S, base, rng, fields, rel, tol, force)
     # transpose
     tr = dict(base, q0=base["q0"].T.copy(), profiles=(v, u, Ky, Kx, Kz), domain=(base["domain"][1], base["domain"][0]),
               modes=(nly, nlx), meas_pt=(base["meas_pt"][1], base["meas_pt"][0]))
@@ -124,12 +241,13 @@ def oracle(ctx, hints):
     found = {}
     for case in pool:
         try:
-            for sig, detail in probe(S, case, ctx.rng):
-                found.setdefault(sig, (detail, case))
+            for sig, detail, *extra in probe(S, case, ctx.rng):
+                found.setdefault(sig, (detail, case, extra[0] if extra else None))
         except Exception as e:
-            found.setdefault("solver-raises:" + type(e).__name__, (str(e), case))
-    return [{"signature": sig, "what": "C07 %s: %s on %r" % (sig, d, sc.describe(c)), "replay": {"case": sc.full(c), "detail": d}}
-            for sig, (d, c) in found.items()]
+            found.setdefault("solver-raises:" + type(e).__name__, (str(e), case, None))
+    return [{"signature": sig, "what": "C07 %s: %s on %r" % (sig, d, sc.describe(c)),
+             "replay": dict({"case": sc.full(c), "detail": d}, **({"recentred": x} if x else {}))}
+            for sig, (d, c, x) in found.items()]
 
 
 def replay(body):
@@ -138,8 +256,8 @@ def replay(body):
     S = sc.impl()
     res = []
     for s in range(3):
-        res += probe(S, sc.from_full(body["case"]), random.Random(s))
-    for sig, d in res:
+        res += probe(S, sc.from_full(body["case"]), random.Random(s), body.get("recentred"))
+    for sig, d, *_ in res:
         print("FAILS", sig, d)
     if not res:
         print("holds on this input")
